@@ -4,7 +4,10 @@
    registry copy of that exact version) and the letters `write_char_escape` emits — the Coq side proves
    that Model/JsonEscape.escape_class agrees with it entry by entry;
  * the shape of Stats::write / Stats::read (harper-stats/src/lib.rs), of save_stats (harper-ls/src/backend.rs)
-   and of generate_stats_file / import_stats_file (harper-wasm/src/lib.rs) that Model/Stats.v mirrors.
+   and of generate_stats_file / import_stats_file (harper-wasm/src/lib.rs) that Model/Stats.v mirrors;
+ * where the Numbers of a record come from and how floats are read back: lex_number accepts a candidate only
+   when its f64 is_finite() (b5c1992), lex_hex_number takes a u64, nothing else in the sources builds a
+   Number, and harper-stats builds serde_json with float_roundtrip (abf6ba7).
 Raises when a source no longer has the shape it knows."""
 import os, re, glob
 
@@ -112,6 +115,36 @@ def shape_flags(repo):
     i = fn_body(code, r"pub fn import_stats_file\(&mut self, file: String\)", rel)
     flags.append(("import_stats_file: Stats::read then append to the records held",
                   bool(re.search(r"Stats::read\(&mut read\)", i)) and bool(re.search(r"self\.stats\.records\.append\(&mut new_stats\.records\);", i))))
+    # ---- where Numbers come from (the `lexer` contract of C19_text_records_*) and how floats are re-read
+    rel = "harper-core/src/lexing/mod.rs"
+    code = strip_comments(open(os.path.join(repo, rel), encoding="utf-8").read())
+    ln = fn_body(code, r"pub fn lex_number\(source: &\[char\]\)", rel)
+    flags.append(("lex_number: a candidate becomes a Number only if its f64 is_finite()",
+                  bool(re.search(r"if let Some\(n\) = s\.parse::<f64>\(\)\.ok\(\)\.filter\(\|n\| n\.is_finite\(\)\)\s*\{", ln))
+                  and len(re.findall(r"Number\s*\{", ln)) == 1 and bool(re.search(r"Number\s*\{\s*value: n\.into\(\),", ln))
+                  and "parse::<f64>" not in ln.replace("s.parse::<f64>().ok().filter(|n| n.is_finite())", "", 1)))
+    lh = fn_body(code, r"pub fn lex_hex_number\(source: &\[char\]\)", rel)
+    flags.append(("lex_hex_number: the value is a u64 converted to f64",
+                  bool(re.search(r"if let Ok\(n\) = u64::from_str_radix\(&s, 16\)\s*\{", lh))
+                  and len(re.findall(r"Number\s*\{", lh)) == 1 and bool(re.search(r"Number\s*\{\s*value: OrderedFloat\(n as f64\),", lh))))
+    # every struct literal `Number { value: <expr>` outside #[cfg(test)] code, in every crate that sees records
+    sites = []
+    for crate in ["harper-core", "harper-stats", "harper-ls", "harper-wasm", "harper-comments", "harper-html",
+                  "harper-literate-haskell", "harper-typst", "harper-tree-sitter"]:
+        for path in glob.glob(os.path.join(repo, crate, "src", "**", "*.rs"), recursive=True):
+            c = strip_comments(open(path, encoding="utf-8").read())
+            c = c.split("#[cfg(test)]")[0]
+            for m in re.finditer(r"\bNumber\s*\{\s*value\s*:", c):
+                sites.append(os.path.relpath(path, repo))
+            if re.search(r"\.value\s*=[^=]", c) and re.search(r"\bNumber\b", c):
+                sites.append(os.path.relpath(path, repo) + " (assigns a .value)")
+    flags.append(("no source outside lex_number / lex_hex_number builds a Number value",
+                  sorted(sites) == ["harper-core/src/lexing/mod.rs", "harper-core/src/lexing/mod.rs"]))
+    rel = "harper-stats/Cargo.toml"
+    toml = open(os.path.join(repo, rel), encoding="utf-8").read()
+    m = re.search(r"^serde_json\s*=\s*(.*)$", toml, re.M)
+    flags.append(("harper-stats builds serde_json with float_roundtrip (its float parser inverts its float printer)",
+                  bool(m) and bool(re.search(r"features\s*=\s*\[[^\]]*\"float_roundtrip\"", m.group(1)))))
     return flags
 
 
